@@ -201,6 +201,10 @@ class C05(Oracle):
                 else:
                     v = gen.formal_value(ch, f, kind)
                 pairs = [[["qn", "prov", pools.PROV_URI, f], v]]
+                if rng.random() < 0.25 and f != "entity":
+                    # a second value for the same formal attribute within the same call
+                    # (never prov:entity: with a prov:collection key that is the disclaimed path)
+                    pairs.append([["qn", "prov", pools.PROV_URI, f], gen.formal_value(ch, f, kind)])
                 if rng.random() < 0.4:
                     pairs = gen.extras(ch, 1) + pairs
                 if rng.random() < 0.2:
@@ -209,7 +213,33 @@ class C05(Oracle):
                     # a prov:collection key on a non-collection record must not disable the guard
                     pairs = [[["qn", "prov", pools.PROV_URI, "collection"], gen.formal_value(ch, "collection", kind)]] + pairs
                 return ["add_attrs", ["h", rh], pairs, "pairs" if rng.random() < 0.6 else "dict"]
-        return gen.next_op(world)
+        op = gen.next_op(world)
+        if op[0] == "rec" and rng.random() < 0.12:
+            # a formal attribute also (or only) given among the "other" attributes of the
+            # creating call: same value -> no-op, different value -> refused
+            kind = op[3]
+            names = pools.KINDS[kind][1]
+            if names:
+                f = rng.choice(names)
+                if f in op[5] and rng.random() < 0.4:
+                    v = op[5][f]
+                else:
+                    v = gen.formal_value(op[2], f, kind)
+                pair = [["qn", "prov", pools.PROV_URI, f], v]
+                has_coll = "collection" in op[5] or any(a[0] == "qn" and a[1] == "prov" and a[3] == "collection" for a, _ in op[6])
+                if f == "entity" and (has_coll or f in op[5]):
+                    # several prov:entity values next to a prov:collection key in one call is
+                    # the PROV-JSON compatibility path C05 explicitly does not claim
+                    return op
+                op[6] = list(op[6]) + [pair]
+                if rng.random() < 0.3 and f != "entity":
+                    op[6].append([["qn", "prov", pools.PROV_URI, f], gen.formal_value(op[2], f, kind)])
+                op[8] = "pairs"
+                if op[7] == "conv" and not pools.CONVENIENCE.get(kind, (0, 0, 0, False))[3]:
+                    op[7] = "new_record"
+                if op[7] == "factory" and not pools.FACTORIES[kind][3]:
+                    op[7] = "new_record"
+        return op
 
     def nontrivial(self, w):
         return self.counters.get("transition_checks", 0) > 0
